@@ -6,6 +6,7 @@ mod c12;
 mod c21;
 mod c20;
 mod c03;
+mod c15;
 
 fn main() {
     let args: Vec<String> = std::env::args().collect();
@@ -19,6 +20,7 @@ fn main() {
         "c21" => c21::run(&opts),
         "c20" => c20::run(&opts),
         "c03" => c03::run(&opts),
+        "c15" => c15::run(&opts),
         other => {
             eprintln!("unknown subcommand {other}");
             2
